@@ -11,6 +11,7 @@ import (
 
 	"detsim"
 
+	apierrors "k8s.io/apimachinery/pkg/api/errors"
 	metav1 "k8s.io/apimachinery/pkg/apis/meta/v1"
 	"k8s.io/apimachinery/pkg/runtime"
 	"k8s.io/apimachinery/pkg/watch"
@@ -332,6 +333,9 @@ func (s *Server) List(ctx context.Context, opts metav1.ListOptions) (runtime.Obj
 		call.Outcome = "cancelled"
 		return nil, ctx.Err()
 	}
+	if script != "" && script != "hang" {
+		detsim.Count("fault:list-" + script) // scripted outcome of this call (C14/C13)
+	}
 	if script == "" && s.F.Roll("list-error") {
 		script = "error"
 	}
@@ -339,6 +343,15 @@ func (s *Server) List(ctx context.Context, opts metav1.ListOptions) (runtime.Obj
 	case "error":
 		call.Outcome = "error"
 		return nil, ErrInjectedList
+	case "error-with-list":
+		// what client-go's typed clients do on failure: a non-nil, well-typed,
+		// empty list object together with the error
+		call.Outcome = "error"
+		return BuildTypedList(s.Kind, "", nil), ErrInjectedList
+	case "error-with-full-list":
+		// a truncated / partially decoded response: content and an error
+		call.Outcome = "error"
+		return BuildList(s.Kind, rv, snap), ErrInjectedList
 	case "error-timeout", "error-canceled", "error-canceled-bare", "error-deadline-bare":
 		// a failed list is fatal whatever the error value looks like - also when
 		// it is, or wraps, a context error that is not the caller's own cancellation
@@ -444,6 +457,10 @@ func (s *Server) Watch(ctx context.Context, opts metav1.ListOptions) (watch.Inte
 		return nil, fmt.Errorf("watch aborted by a proxy: %w", context.Canceled)
 	}
 	from, err := strconv.Atoi(opts.ResourceVersion)
+	if opts.ResourceVersion == "" {
+		// as the API server does it: no version = start at the current state
+		from, err = s.rv, nil
+	}
 	if err != nil {
 		call.Outcome = "bad-version"
 		call.Ended = true
@@ -451,6 +468,20 @@ func (s *Server) Watch(ctx context.Context, opts metav1.ListOptions) (watch.Inte
 	}
 	c := &conn{s: s, call: call, result: make(chan watch.Event), stop: make(chan struct{})}
 	gone := from < s.compact
+	if !gone && from < s.rv && s.F.Roll("watch-connect-expired") {
+		// the server refuses this (behind) resume version with "410 Gone" once,
+		// as an API error of the Watch call itself; the next attempt is served
+		call.Outcome = "connect-expired"
+		call.Ended = true
+		return nil, apierrors.NewResourceExpired("too old resource version (injected)")
+	}
+	if gone && detsim.Choose("gone-how", 2) == 1 {
+		// compaction reported by the call instead of by a first frame
+		call.Outcome = "gone-410"
+		call.Ended = true
+		detsim.Count("fault:watch-gone-410-call")
+		return nil, apierrors.NewResourceExpired("too old resource version")
+	}
 	for c.next < len(s.log) && s.log[c.next].RV <= from {
 		c.next++
 	}
@@ -506,6 +537,17 @@ func (c *conn) pump(ctx context.Context, gone bool) {
 				return
 			case s.F.Roll("watch-status-frame"):
 				if !c.send(ctx, watch.Event{Type: watch.Modified, Object: &metav1.Status{Status: "Success", Message: "injected status frame"}}) {
+					return
+				}
+				continue
+			case s.F.Roll("watch-expired-frame"):
+				// an in-band "410 Expired" error frame on a stream that then goes on
+				// (a confused proxy) or ends, as the API server does it
+				if !c.send(ctx, watch.Event{Type: watch.Error, Object: &metav1.Status{Status: "Failure", Reason: metav1.StatusReasonExpired, Code: 410, Message: "injected: too old resource version"}}) {
+					return
+				}
+				if detsim.Choose("expired-then", 2) == 1 {
+					c.call.Outcome = "closed-by-server(after expired frame)"
 					return
 				}
 				continue
